@@ -71,3 +71,13 @@ Definition has_methods (names : list string) (ms : list (string * list lev)) : b
 Definition touches (l : list lev) : bool :=
   existsb (fun e => match e with LRead _ | LWrite _ | LSafeCall _ _ => true | _ => false end) l.
 Definition all_touch (ms : list (string * list lev)) : bool := forallb (fun m => touches (snd m)) ms.
+
+(* all lock events of a method name the one lock m: `disciplined` alone does not prevent two
+   methods from guarding one object with different locks *)
+Definition one_lock (m : string) (l : list lev) : bool :=
+  forallb (fun e => match e with
+                    | LLock m' | LUnlock m' | LRLock m' | LRUnlock m' => String.eqb m m'
+                    | _ => true
+                    end) l.
+Definition all_one_lock (m : string) (ms : list (string * list lev)) : bool :=
+  forallb (fun x => is_init (fst x) || one_lock m (snd x)) ms.
